@@ -86,7 +86,7 @@ def run(tier, replay):
     # (B)+(S) plans from TxBalanceBatch / TxBalanceState; the harness runs in the background while TLC works on (M)
     st_cases, st_model = _txbal_state.plans(tier)
     log("TLC %s: %d plans in %.0fs" % (st_model["config"], len(st_cases), st_model["wall_s"]))
-    st_handle = _txbal_state.start(st_cases, wd, {"batch": 2, "state": 3, "large": 2} if thorough else None)
+    st_handle = _txbal_state.start(st_cases, wd, {"batch": 2, "state": 4, "large": 2} if thorough else None)
 
     # (M) the rule set implies conservation on every enumerated body
     runs = [("mc/MC_TxBalance_thorough" if thorough else "mc/MC_TxBalance", "single")]
